@@ -904,6 +904,19 @@ func (c *c17) visitorMethods() {
 				methodBad = true
 				c.r.Bad("R1", construct+"/operand "+e.String(), c.pos(vi.fn), "in `"+a.String()+"` the substituted "+e.hole.kind+" stands next to an operator that is not the legacy operator it belonged to, and is neither an atom nor parenthesized: an operand with a lower-precedence operator regroups")
 			}
+			// (c) a migrated child is substituted whole: a slice or textual replacement of it is not an expression
+			for _, pc := range a.pieces {
+				if pc.hole == nil || (pc.hole.kind != "substr" && pc.hole.kind != "replaced") {
+					continue
+				}
+				for h := pc.hole.from; h != nil; h = h.from {
+					if h.kind == "child" {
+						methodBad = true
+						c.r.Bad("R1", construct+"/child-cut "+a.String(), c.pos(vi.fn), "in `"+a.String()+"` the text of a migrated child expression is "+map[string]string{"substr": "sliced", "replaced": "edited by a textual replacement"}[pc.hole.kind]+" before it is substituted: a prefix such as a leading minus belongs to the child's own operators (-y ^ 2 is (-y) ^ 2), so the rest of the text is another expression")
+						break
+					}
+				}
+			}
 			// (b) atomic legacy categories yield atoms
 			if !isOp && lb != "parse" {
 				if lb == "functionCall" {
